@@ -331,6 +331,65 @@ theorem summary_counts_agree (flt : Option OutEv.Filter) (ss : List Script) :
     List.getLast?_singleton, Option.some_or, Option.some.injEq, Sk.testsEnded.injEq] at hh
   exact hh
 
+/-! ## JUnit: one report file per C02 group block -/
+
+/-- C16's `groupRuns` (the grouping its `suites_follow_groups` is stated with) and C02's `groupBlocks` cut the list
+    at the same places: same block lengths, and both start their first block with the first test. -/
+theorem groupRuns_blocks : ∀ (ss : List Script) (k : Nat),
+    (JUnit.groupRuns ss).map List.length = (Registry.groupBlocks (toTestsFrom k ss)).map List.length ∧
+    (∀ n rest, ss = n :: rest → (∃ run more, JUnit.groupRuns ss = (n :: run) :: more) ∧
+      ∃ b bs, Registry.groupBlocks (toTestsFrom k ss) = (mkTest k n :: b) :: bs)
+  | [], _ => ⟨rfl, fun n rest h => by cases h⟩
+  | [t], k => by
+    refine ⟨by simp [JUnit.groupRuns, toTestsFrom, Registry.groupBlocks, Registry.endOfGroup, Gen.Registry.endOfGroup], ?_⟩
+    intro n rest h
+    cases h
+    exact ⟨⟨[], [], by simp [JUnit.groupRuns]⟩,
+      ⟨[], [], by simp [toTestsFrom, Registry.groupBlocks, Registry.endOfGroup, Gen.Registry.endOfGroup]⟩⟩
+  | t :: n :: rest, k => by
+    obtain ⟨hlen, hhead⟩ := groupRuns_blocks (n :: rest) (k + 1)
+    obtain ⟨⟨run, more, hr⟩, ⟨b, bs, hb⟩⟩ := hhead n rest rfl
+    have heog : Registry.endOfGroup (mkTest k t) (toTestsFrom (k + 1) (n :: rest)) = (t.info.group != n.info.group) := by
+      rw [endOfGroup_agrees]; rfl
+    have hR : JUnit.groupRuns (t :: n :: rest) =
+        if t.info.group == n.info.group then (t :: n :: run) :: more else [t] :: (n :: run) :: more := by
+      simp only [JUnit.groupRuns] at hr ⊢
+      rw [hr]
+    have hB : Registry.groupBlocks (toTestsFrom k (t :: n :: rest)) =
+        if (t.info.group != n.info.group) = true then [mkTest k t] :: (mkTest (k + 1) n :: b) :: bs
+        else (mkTest k t :: mkTest (k + 1) n :: b) :: bs := by
+      show Registry.groupBlocks (mkTest k t :: toTestsFrom (k + 1) (n :: rest)) = _
+      simp only [Registry.groupBlocks, heog, hb]
+    rw [hr, hb] at hlen
+    simp only [List.map_cons, List.length_cons, List.cons.injEq] at hlen
+    refine ⟨?_, ?_⟩
+    · rw [hR, hB]
+      by_cases hg : t.info.group = n.info.group
+      · simp [hg, hlen.1, hlen.2]
+      · simp [hg, hlen.1, hlen.2]
+    · intro n' rest' h
+      cases h
+      refine ⟨?_, ?_⟩
+      · rw [hR]; split
+        · exact ⟨_, _, rfl⟩
+        · exact ⟨_, _, rfl⟩
+      · rw [hB]; split
+        · exact ⟨_, _, rfl⟩
+        · exact ⟨_, _, rfl⟩
+
+/-- **One JUnit report file per C02 group block.**  Connects C16's `suites_follow_groups` (the reports of a run
+    correspond to `groupRuns`) with C02's `groupBlocks`: the number of report files the JUnit writer produces for a
+    run is the number of blocks of `Registry.groupBlocks`, and file `i` holds as many test cases as tests of C16's
+    run `i` ran, the runs having the lengths of the C02 blocks. -/
+theorem junit_reports_are_registry_blocks (package timeString : Text.Bytes) (flt : Option OutEv.Filter) (ss : List Script) :
+    (JUnit.reports package timeString (OutEv.runAll flt ss)).length = (Registry.groupBlocks (toTests ss)).length ∧
+    (JUnit.groupRuns ss).map List.length = (Registry.groupBlocks (toTests ss)).map List.length := by
+  have h1 := congrArg List.length (JUnit.suites_follow_groups package timeString flt ss)
+  have h2 := (groupRuns_blocks ss 0).1
+  have h3 := congrArg List.length h2
+  simp only [List.length_map] at h1 h3
+  exact ⟨h1.trans h3, h2⟩
+
 /-! ## non-vacuity -/
 
 def exScripts : List Script :=
